@@ -390,8 +390,8 @@ func (x *Exec) assumeTypeFacts(st *State, v Val, t types.Type) {
 		st.assume(Implies(Eq(i.Tag, IntC(0)), Eq(i.Ref, IntC(0))))
 		// pointer-shaped dynamic types that are known to the program are never nil-boxed
 		// (no: a typed nil pointer may be boxed; we do not assume it)
-		if inModuleType(t) {
-			// module interfaces never box a nil pointer (asserted where a pointer is boxed)
+		if x.nnBoxed[typeKey(t)] {
+			// declared: this interface never boxes a nil pointer (asserted where a pointer is boxed)
 			st.assume(Implies(Ne(i.Tag, IntC(0)), Ne(i.Ref, IntC(0))))
 		}
 		if impl := x.implementers(t); impl != nil && inModuleType(t) {
